@@ -2,7 +2,7 @@
 import json
 import os
 import re
-from ..mirlib import load, callee_key, short_ty
+from ..mirlib import load, callee_key, short_ty, CallGraph
 from ..facts import EngineError, VERIF
 from . import shared_mir as sm
 
@@ -233,6 +233,18 @@ def run(ctx):
     r = ctx.rule("R10.4", "inventory of growable containers reachable from a rewriter: each is charged, bounded by the configuration, bounded by the (charged) current token, or a recorded finding; a new container field is reported", "E-MIR type-driven inventory", floor=40)
     table = json.load(open(os.path.join(VERIF, "spec", "containers.json")))["fields"]
     seen = set()
+    cg = CallGraph(mir)
+    roots = [p_ for p_, f_ in cg.fns.items() if f_.key in ("TransformStream::write", "TransformStream::end")]
+    if len(roots) != 2:
+        raise EngineError("R10.4: TransformStream::write/end not found")
+    api_roots = [p_ for p_, f_ in cg.fns.items() if p_.startswith("rewritable_units::") and f_.rec["vis"] == "Public" and "{closure" not in p_]
+    reach = cg.reachable(roots + api_roots)
+    gs = grow_sites(mir, reach)
+    r.count("functions_reachable_from_write_end_or_handler_api", len(reach))
+    r.count("fields_with_growth_sites", len(gs))
+    r.control(any("LimitedVec::push" in h for _, h, _ in gs.get("Stack.items", [])), "growth analysis sees LimitedVec::push on Stack.items")
+    r.control(any("Arena::append" in h for _, h, _ in gs.get("TransformStream.buffer", [])), "growth analysis sees Arena::append on TransformStream.buffer")
+    auto = []
     for p, a in sorted(mir.adts.items()):
         if "::tests" in p or "test_utils" in p:
             continue
@@ -242,11 +254,25 @@ def run(ctx):
                     key = p.split("::")[-1] + ("::" + v["name"] if a["enum"] else "") + "." + fld["name"]
                     seen.add(key)
                     ent = table.get(key)
-                    r.inst(key, sample={"field": key, "type": fld["ty"][:80], "class": ent[0] if ent else None})
+                    sites = [(fn_, how) for fn_, how, _ in gs.get(key, []) if not _const_sized(how)]
+                    r.inst(key, sample={"field": key, "type": fld["ty"][:80], "class": ent[0] if ent else None, "growth_sites": sorted(set(sites))[:6]})
+                    desc = "; ".join("%s %s" % (fn_, how[:60]) for fn_, how in sorted(set(sites))[:4])
                     if ent is None:
-                        r.violate(key, f"unreviewed growable container `{key}: {fld['ty'][:80]}`: if it grows with the document it must be charged to the memory limiter (LimitedVec/Arena)", a["span"])
+                        if re.search(r"memory::(limited_vec::LimitedVec|arena::Arena)", fld["ty"]) and not re.search(r"std::vec::Vec|String|collections", fld["ty"].replace("memory::", "")):
+                            auto.append({"field": key, "class": "charged (LimitedVec / Arena)"})
+                        elif not sites:
+                            auto.append({"field": key, "class": "no growth site reachable from write()/end() or the handler-facing API"})
+                        else:
+                            r.violate(key, f"unreviewed growable container `{key}: {fld['ty'][:80]}` grows while documents are processed ({desc}) and is not charged to the memory limiter (LimitedVec/Arena)", a["span"])
                     elif ent[0] == "finding":
                         r.violate(key, f"{key} grows with the document and is not charged to the memory limiter: {ent[1]}", a["span"])
+                    elif ent[0] == "config" and sites:
+                        r.violate(key + "|grows", f"{key} is sized by the configuration ({ent[1]}) but now grows while documents are processed: {desc} — uncharged, input-driven growth", a["span"])
+                    elif ent[0] == "bounded":
+                        extra = sorted(set(fn_ for fn_, _ in sites) - set(ent[2]))
+                        if extra:
+                            r.violate(key + "|grows", f"{key} ({ent[1]}) gained a growth site outside the reviewed ones {ent[2]}: {extra}", a["span"])
+    r.analysed["auto_classified_unreviewed_fields"] = auto
     # ------------------------------------------------------------------ R10.5
     r = ctx.rule("R10.5", "one limiter per rewriter: SharedMemoryLimiter::new is called once, in HtmlRewriter::new, and the same limiter is handed to the selector VM stack and to the parsing buffer", "E-MIR", floor=3)
     callers = [(f, bi, t) for f, bi, t in mir.callers_of(r"SharedMemoryLimiter::new$") if not mir.is_test_fn(f)]
@@ -299,4 +325,91 @@ def _sufficient_capacity_edges(f):
                         out.append((sbi, false_t[0]))
                     elif st["rv"]["op"] == "Ge":
                         out.append((sbi, sw["else"]))
+    return out
+
+
+GROW_RX = re.compile(r"(^|::)(push|push_back|push_front|push_str|insert|insert_\w+|extend|extend_from_slice|extend_from_within|reserve|reserve_exact|try_reserve|try_reserve_exact|resize|resize_with|append|entry|raw_entry_mut|or_insert\w*|write|write_all|write_str|write_fmt|push_item|add\w*|inc\w*|set\w*|init\w*)(\[\w+\])?$")
+NOGROW_RX = re.compile(r"(^|::)(clear|pop|pop_back|pop_front|remove|swap_remove|truncate|iter_mut|get_mut|last_mut|first_mut|retain|retain_mut|drain|len|is_empty|align|as_mut|as_mut_slice|deref_mut|index_mut|sort\w*|dedup\w*|take|values_mut|get|contains\w*|iter|shrink_to_fit|split_off|borrow_mut|as_mut_ptr|fill|reverse|swap|as_mut_str|into_iter|make_ascii_lowercase|make_ascii_uppercase|copy_from_slice|copy_within)(\[\w+\])?$")
+THROUGH_RX = re.compile(r"(^|::)(borrow_mut|deref_mut|deref|as_mut|unwrap|expect|get_mut|as_deref_mut|last_mut|first_mut|index_mut|as_mut_slice|borrow|as_ref|unwrap_or_default|get_or_insert_with|mutate)(\[\w+\])?$")
+FRESH_RX = re.compile(r"(^|::)(new|default|with_capacity|with_hasher|with_capacity_and_hasher|take|from_settings|new_in)(\[\w+\])?$")
+
+
+def _const_sized(how):
+    """`assigned f(const .., const ..)`: a value whose size is fixed by constants"""
+    m = re.match(r"assigned [\w:<>\[\]& ]+\((.*)\)$", how)
+    return bool(m) and all(x.strip().startswith("const ") for x in m.group(1).split(", "))
+
+
+def _field_keys(f, p):
+    """inventory keys (Owner.field / Owner::Variant.field) of every field on the path of place p"""
+    r = f._root_place_p(p)
+    if r is None:
+        return []
+    # look through RefCell / Rc / Option accessors: `self.buf.borrow_mut().push(..)` grows `buf`
+    proj = list(r[1])
+    loc = r[0]
+    for _ in range(8):
+        if 1 <= loc <= f.rec["arg_count"]:
+            break
+        ds = f.defs_of(loc)
+        if len(ds) != 1 or ds[0][0] != "call" or not THROUGH_RX.search(callee_key(ds[0][2])) or not ds[0][2]["args"]:
+            break
+        a0 = ds[0][2]["args"][0]
+        if a0["k"] not in ("copy", "move"):
+            break
+        r2 = f._root_place_p(a0["p"])
+        if r2 is None:
+            break
+        loc, proj = r2[0], list(r2[1]) + proj
+    out = []
+    variant = None
+    for e in proj:
+        if isinstance(e, dict) and "variant" in e:
+            variant = e["variant"]
+        elif isinstance(e, dict) and "f" in e:
+            owner = short_ty(e["of"]).split("<")[0]
+            out.append(owner + ("::" + variant if variant else "") + "." + e["f"])
+            variant = None
+        else:
+            variant = None
+    return out
+
+
+def grow_sites(mir, reachable):
+    """{inventory key: [(function, how, block)]} — places where a container field may grow inside
+    functions reachable from write()/end() or from the handler-facing API."""
+    out = {}
+    for f in mir.fns:
+        if f.path not in reachable:
+            continue
+        for bi, b in enumerate(f.blocks):
+            if b["cleanup"]:
+                continue
+            for st in b["stmts"]:
+                if st["k"] == "assign" and st["p"]["proj"]:
+                    keys = _field_keys(f, st["p"])
+                    if keys and isinstance(st["p"]["proj"][-1], dict) and "f" in st["p"]["proj"][-1]:
+                        rv = st["rv"]
+                        src = f.deep(rv["o"]) if rv["k"] == "use" else rv["k"]
+                        if not FRESH_RX.search(src.split("(")[0]):
+                            out.setdefault(keys[-1], []).append((f.key, "assigned " + src, bi))
+            t = b["term"]
+            if t["k"] != "call":
+                continue
+            ck = callee_key(t)
+            if t["dest"]["proj"]:
+                keys = _field_keys(f, t["dest"])
+                if keys and not FRESH_RX.search(ck):
+                    out.setdefault(keys[-1], []).append((f.key, "assigned " + ck, bi))
+            for i, a in enumerate(t["args"]):
+                if a["k"] not in ("copy", "move") or not t["atys"][i].startswith("&mut"):
+                    continue
+                keys = _field_keys(f, a["p"])
+                if not keys:
+                    continue
+                if NOGROW_RX.search(ck):
+                    continue
+                how = ("grows via " if GROW_RX.search(ck) else "escapes to ") + ck
+                for k in keys:
+                    out.setdefault(k, []).append((f.key, how, bi))
     return out
